@@ -204,6 +204,9 @@ class Impl:
         """Substitute the lattice point into a symbolic scalar/matrix of the implementation."""
         sub = self._component_values(sym_expr, env)
         out = sym_expr.xreplace(sub)
+        # compound angles (a + b, 3*a, ...): addition theorems first, so that only cos/sin of single symbols remain
+        if any(f.args[0].free_symbols and f.args[0] not in (s_, -s_) for f in out.atoms(sp.cos, sp.sin) for s_ in list(f.args[0].free_symbols)[:1]):
+            out = out.applyfunc(lambda e: sp.expand_trig(e)) if hasattr(out, "applyfunc") else sp.expand_trig(out)
         trig = {}
         for f in out.atoms(sp.cos, sp.sin):
             s = self._angle_symbol(f.args[0])
